@@ -40,6 +40,7 @@ type Sys struct {
 	servers             []*grpc.Server
 	Net                 string // tenant (network id) the next requests are issued for ("": the registry's own)
 	conns               []*grpc.ClientConn
+	reqCtx              context.Context // With(): the context REST requests are issued with (nil: Env.Ctx)
 }
 
 func NewSys(env *Env) *Sys {
@@ -74,6 +75,21 @@ func NewSys(env *Env) *Sys {
 	s.WriteC = rts.NewWriteServiceClient(wc)
 	s.Syntax = opl.NewSyntaxServiceClient(oc)
 	return s
+}
+
+// With returns a view of s whose REST requests carry ctx (a request of a
+// scheduled execution: the context identifies it to the scheduler).
+func (s *Sys) With(ctx context.Context) *Sys {
+	c := *s
+	c.reqCtx = ctx
+	return &c
+}
+
+func (s *Sys) restCtx() context.Context {
+	if s.reqCtx != nil {
+		return s.reqCtx
+	}
+	return s.Env.Ctx
 }
 
 func (s *Sys) ctx() context.Context {
@@ -176,9 +192,9 @@ func (s *Sys) RESTRaw(h http.Handler, method, target string, body []byte) (resp 
 	var req *http.Request
 	var err error
 	if rd != nil {
-		req, err = http.NewRequestWithContext(s.Env.Ctx, method, "http://keto.sim"+target, rd)
+		req, err = http.NewRequestWithContext(s.restCtx(), method, "http://keto.sim"+target, rd)
 	} else {
-		req, err = http.NewRequestWithContext(s.Env.Ctx, method, "http://keto.sim"+target, nil)
+		req, err = http.NewRequestWithContext(s.restCtx(), method, "http://keto.sim"+target, nil)
 	}
 	if err != nil {
 		resp.Err = "request not constructible: " + err.Error()
